@@ -84,6 +84,8 @@ def build(rng, consistent=True, parallel=False, nr=None, no=None):
     recs_r, recs_o = [], []
     tags = iter(rng.sample(["a", "b", "c", "r1", "o1", "t", "u", "1"], 6))
     first_h = None
+    first_rec = None
+    par_kind = rng.choice(["hkl", "measured"]) if parallel else None
     for i in range(nr + no):
         is_r = i < nr
         tag = next(tags) if rng.random() < 0.5 else None
@@ -96,12 +98,15 @@ def build(rng, consistent=True, parallel=False, nr=None, no=None):
                 h = np.linalg.solve(U0 @ B, qphi) * rng.uniform(0.5, 6)
             else:
                 h = rand_hkl(rng)
-            if parallel and first_h is not None:
+            if par_kind == "hkl" and first_h is not None:
                 h = first_h * rng.choice([2.0, 0.5, 1.0])
+            if par_kind == "measured" and first_rec is not None and first_rec[0] == "R":
+                pos = first_rec[4]      # same measured direction, different (non-parallel) hkl
+                h = rand_hkl(rng)
             recs_r.append(("R", tag, h, None, pos))
         else:
             h = rand_hkl(rng)
-            if parallel and first_h is not None:
+            if par_kind == "hkl" and first_h is not None:
                 h = first_h * rng.choice([2.0, 0.5, 1.0])
             if consistent:
                 xyz = Z @ U0 @ B @ h * rng.uniform(0.2, 5)
@@ -109,9 +114,12 @@ def build(rng, consistent=True, parallel=False, nr=None, no=None):
                 xyz = np.array([rng.uniform(-1, 1) for _ in range(3)])
                 if np.linalg.norm(xyz) < 0.2:
                     xyz = np.array([0.3, 1.0, -0.4])
+            if par_kind == "measured" and first_rec is not None:
+                xyz = Z @ uphi(first_rec) * rng.uniform(0.3, 3)      # measured direction parallel to the first record's, hkl not
             recs_o.append(("O", tag, h, xyz, pos))
         if first_h is None:
             first_h = h
+            first_rec = (recs_r + recs_o)[0]
     with quiet():
         for _, tag, h, _, pos in recs_r:
             ub.add_reflection(tuple(float(x) for x in h), Position(*pos), 12.0, tag)
